@@ -69,11 +69,12 @@ class Pi:
         return rat(Fraction(v) / (self.g.a * self.g.a))
 
     def bagkey(self, key, rng):
-        if rng == "S":
-            return "s:" + str(key)
-        if rng == "N":
-            return "nan" if key == "nan" else keyn(self.pos(key))
-        return ",".join("nan" if c == "nan" else keyn(self.pos(c)) for c in key)
+        # by the key's own type (a Bag may hold keys that contradict its declared range; that must stay observable)
+        if isinstance(key, tuple):
+            return ",".join("nan" if c == "nan" else keyn(self.pos(c)) for c in key)
+        if isinstance(key, str):
+            return "nan" if (key == "nan" and rng != "S") else "s:" + key
+        return keyn(self.pos(key))
 
     def name(self, h):
         q = getattr(h, "quantity", None)
